@@ -14,7 +14,7 @@ TITLE = "Genome, transcript and CDS coordinate systems of a transcript commute"
 RULE = (
     "every TranscriptInterval on every disjoint exon layout (<=3 blocks, adjacent exons incl.) x both strands x every "
     "contiguous CDS placement [c0,c1) in transcript coordinates (+ non-coding), x {no parent, chromosome parent with "
-    "sequence}; every position p in [-1,N] through all point conversions, every interval through the six interval "
+    "sequence, containing chunk at a non-zero offset}; every position p in [-1,N] through all point conversions, every interval through the six interval "
     "conversions, path independence, inverses, UTR/CDS partition, introns. Non-trivial = multi-exon or minus strand "
     "or CDS boundary on an exon boundary / transcript end."
 )
@@ -22,7 +22,7 @@ ASSUMPTIONS = [
     "transcript model: position lists P_tx and P_cds (contiguous slice of P_tx); conversions are list.index / indexing",
     "an empty UTR may be EmptyLocation or any zero-length location",
 ]
-WORLD = {"quick": dict(N=7, k=3), "thorough": dict(N=9, k=3)}
+WORLD = {"quick": dict(N=6, k=3), "thorough": dict(N=9, k=3)}
 NSH = 48
 GENOME = "ACGTTGCATGACCGTA"
 
@@ -59,7 +59,14 @@ def loc_positions(R):
 
 def check_tx(res, N, exons, strand, cds, pk):
     genome = GENOME[:N]
-    parent = lib.chrom_parent(genome) if pk == "chrom" else None
+    if pk == "chrom":
+        parent = lib.chrom_parent(genome)
+    elif pk == "chunk":
+        # a chunk that contains the whole transcript but starts at a non-zero chromosome offset: every chromosome-level
+        # conversion must be unaffected (chunk windows that CUT the transcript are C07's subject)
+        parent = lib.chunk_parent(genome, min(s_ for s_, e_ in exons), N)
+    else:
+        parent = None
     case0 = dict(N=N, exons=[list(b) for b in exons], strand=strand, cds=list(cds) if cds else None, pk=pk)
     Ptx = F.tx_positions(exons, strand)
     ln = len(Ptx)
@@ -188,6 +195,9 @@ def check_tx(res, N, exons, strand, cds, pk):
                 res.deviation(name, c, o[1], E, sig=f"{name}-raises", empty_expected=not E, multi_exon=len(exons) > 1)
                 continue
             got = loc_positions(o[1]) if len(o[1]) else []
+            if pk == "chunk" and name != "cds_location":
+                # documented: on a chunk the UTR intervals are chunk-relative; lift them back by the chunk offset
+                got = [p + min(s_ for s_, e_ in exons) for p in got]
             if got != E:
                 res.deviation(name, c, got, E, sig=name)
             elif E and lib.loc_strand(o[1]) != strand:
@@ -214,7 +224,7 @@ def check_tx(res, N, exons, strand, cds, pk):
         if o[0] != "ok" or o[1] != (False, 0):
             res.deviation("is_coding", dict(op="is_coding", **case0), o[1], (False, 0), sig="noncoding-flags")
     # sequence agreement when a sequence is attached
-    if pk == "chrom":
+    if pk in ("chrom", "chunk"):
         o = lib.outcome(lambda: str(tx.get_spliced_sequence()))
         res.trans()
         e = F.splice(genome, Ptx, strand)
@@ -235,7 +245,9 @@ def run_shard(shard):
                 continue
             placements = [None] + [(c0, c1) for c0 in range(ln) for c1 in range(c0 + 1, ln + 1)]
             for cds in placements:
-                for pk in ("none", "chrom"):
+                for pk in ("none", "chrom", "chunk"):
+                    if pk == "chunk" and exons[0][0] == 0:
+                        continue
                     check_tx(res, N, exons, strand, cds, pk)
     res.sample({"exons": [[0, 2], [3, 5]], "strand": "-", "cds": [1, 3], "P_tx": F.tx_positions(((0, 2), (3, 5)), "-")})
     return res
